@@ -415,8 +415,14 @@ def step (st : St) (toks : List String) : St × String :=
         else
           let sidPid := be64 sid ++ be64 pid
           match SsUdp.xAlg k with
-          | none => (st, hexOrDash (C.aesEnc ctx.key sidPid ++
-              C.sealB k.alg (SsUdp.aesSessionKey C k ctx.key sid) (sidPid.drop 4) [] body))
+          | none =>
+            match (kv rest "ipsk").bind Crypto.Base64.decode with
+            | none => (st, hexOrDash (C.aesEnc ctx.key sidPid ++
+                C.sealB k.alg (SsUdp.aesSessionKey C k ctx.key sid) (sidPid.drop 4) [] body))
+            | some ipsk =>
+              -- a registered user's datagram: header under the server key, identity header naming `password`'s key
+              (st, hexOrDash (C.aesEnc ipsk sidPid ++ SsUdp.withEih C ctx.key sidPid [ipsk] ++
+                C.sealB k.alg (SsUdp.aesSessionKey C k ctx.key sid) (sidPid.drop 4) [] body))
           | some xa => (st, hexOrDash (rnd ++ C.sealB xa (ctx.key.take 32) rnd [] (sidPid ++ body)))
     | _, _, _, _, _, _ => (st, "bad-op")
   | ["nonce.cnt", iv, n] =>
@@ -482,10 +488,18 @@ def step (st : St) (toks : List String) : St × String :=
     | _, _ => (st, "bad-op")
   | "ssu.setid" :: name :: rest =>
     -- test hook of the harness: put the client's packet id counter at a chosen value
-    match st.objs.get? name, (kv rest "pid").bind String.toNat? with
-    | some (.ssu o), some pid =>
-      ({ st with objs := st.objs.insert name (.ssu { o with cc := { o.cc with session := { o.cc.session with packetId := pid } } }) }, "ok")
-    | _, _ => (st, "bad-op")
+    match st.objs.get? name with
+    | some (.ssu o) =>
+      let s := o.cc.session
+      let s := match (kv rest "pid").bind String.toNat? with
+        | some pid => { s with packetId := pid }
+        | none => s
+      let s := match (kv rest "csid").bind String.toNat? with
+        | some csid => { s with clientSessionId := csid }
+        | none => s
+      let known := o.known || ((kv rest "csid").bind String.toNat?).isSome
+      ({ st with objs := st.objs.insert name (.ssu { o with cc := { o.cc with session := s }, known := known }) }, "ok")
+    | _ => (st, "bad-op")
   | "ssu.sdec" :: name :: h :: rest =>
     match st.objs.get? name, unhexOrDash h with
     | some (.ssu o), some b =>
